@@ -40,6 +40,7 @@ package exchange
 // callbacks run here) never escapes, and every recovered panic - whatever its value - is reported
 // on the error channel, so that the query fails instead of going on without a series list.
 //@ func (*coalesceOperator).loadSeries$1
+//@   assigns elems([]github.com/prometheus/prometheus/model/labels.Labels)@allSeries, ghost chsent@errChan
 //@   requires c != nil && ctx != nil && 0 <= i && i < len(c.operators) && c.operators[i] != nil && len(allSeries) == len(c.operators) && !closed(errChan)
 //@   ghostvar nrep int = 0
 //@   at line "errChan <- errors.Wrapf(err" set nrep = nrep + 1
@@ -64,3 +65,24 @@ package exchange
 //@ func (*concurrencyOperator).Next
 //@   requires ctx != nil && c != nil && c.next != nil && c.buffer != nil && !closed(c.buffer)
 //@   ensures[C18] error-means-no-batch: result1 != nil ==> isnil(result0)
+
+// coalesceOperator.loadSeries: the series of the children are requested on loader goroutines only -
+// the function itself cannot panic (no `panics may`), so that Series/Next of a coalesce operator never
+// pass a storage panic on to whichever goroutine called them. One offset per child.
+//@ func errorChan.getError
+//@   inline
+//@   loop 0 invariant true
+//@ func (*coalesceOperator).loadSeries
+//@   requires c != nil && ctx != nil && c.pool != nil && (forall j in 0..len(c.operators) :: c.operators[j] != nil)
+//@   assigns exchange.coalesceOperator.sampleOffsets, exchange.coalesceOperator.series, model.VectorPool.stepSize
+//@   ensures[C11,C18] one-offset-per-child: result == nil ==> len(c.sampleOffsets) == len(c.operators)
+// The ids of child i are re-based by the number of series of the children before it - whatever the order
+// in which the loaders finished (C11):
+//@   at line "c.sampleOffsets[i] = offset" assert[C11,C18] offset-is-the-number-of-series-of-the-children-before: offset == len(c.series)
+//@   ensures[C11,C18] offsets-ascend-within-the-series-list: result == nil ==> forall j in 0..len(c.sampleOffsets) :: c.sampleOffsets[j] <= len(c.series) && (j >= 1 ==> c.sampleOffsets[j-1] <= c.sampleOffsets[j])
+//@   loop 0 invariant c != nil && ctx != nil && c.pool != nil && 0 <= i && i <= len(c.operators) && len(allSeries) == len(c.operators) && fresh(allSeries) && !closed(errChan) &&
+//@       (forall j in 0..len(c.operators) :: c.operators[j] != nil)
+//@   loop 1 invariant shape1: c != nil && c.pool != nil && len(allSeries) == len(c.operators) && len(c.sampleOffsets) == len(c.operators) && fresh(c.sampleOffsets) &&
+//@       (isnil(c.series) || fresh(c.series)) && allocated(c.series) && (isnil(c.series) || ref(c.series) != ref(c.sampleOffsets))
+//@   loop 1 invariant offset-counts-the-series-so-far: offset == len(c.series)
+//@   loop 1 invariant offsets-so-far: forall j in 0..rangeindex+1 :: c.sampleOffsets[j] <= len(c.series) && (j >= 1 ==> c.sampleOffsets[j-1] <= c.sampleOffsets[j])
